@@ -389,6 +389,13 @@ def derive(repo):
     note("t_meshset_clear", bool(_stmts_calling(inner, None, "clear_cached_computed_values", ["self"])), rel, ms)
     note("t_meshset_sub", bool(_stmts_calling(inner, marg, "_Add_observer", ["self"])) and observers_ok, rel, ms)
     note("t_meshset_initsols", bool(_stmts_calling(inner, "self", "__Init_Sols_n", [])), rel, ms)
+    # the meshes of the history can become current again (Set_Iter -> __Update_mesh): the simulation must still observe
+    # them then -- either it never unsubscribes, or __Update_mesh subscribes again
+    removes = any(isinstance(n, ast.Call) and isinstance(n.func, ast.Attribute) and n.func.attr == "_Remove_observer" for n in ast.walk(ms))
+    _um = _method(S, "__Update_mesh", rel=rel)
+    readds = any(isinstance(n, ast.Call) and isinstance(n.func, ast.Attribute) and n.func.attr == "_Add_observer"
+                 and [_src(a) for a in n.args] == ["self"] for st_ in _body(_um) for n in ast.walk(st_) if isinstance(st_, ast.Expr))
+    note("t_meshset_keeps_old", (not removes) or readds, rel, ms)
     # history-dependent INTERNAL variables of the subclasses (phase-field history, material state): whatever a
     # subclass restores in its Set_Iter override beyond the base fields (private attributes, minus the flags its own
     # Need_Update handles) belongs to the mesh and must be reset on the mesh-replacement path as well, through a
@@ -641,6 +648,22 @@ def derive(repo):
                     if not reassigned:
                         refresh_ok = False
                         where = "%s:%d" % (rel, n.lineno)
+    # ... and memoised methods of the SIMULATIONS: the simulation-level cache is cleared by mesh events only, so every
+    # input of a `cache_computed_values` method must be one of its arguments (part of the key); a body that reads
+    # `self.<anything>` (a model parameter, rho, ...) caches a quantity whose invalidation is not shown
+    sroot2 = os.path.join(repo, "EasyFEA", "Simulations")
+    for fn_ in sorted(os.listdir(sroot2)):
+        if not fn_.endswith(".py"):
+            continue
+        rel3 = "Simulations/" + fn_
+        for cls in _classes(_parse(repo, rel3)).values():
+            for m in cls.body:
+                if isinstance(m, ast.FunctionDef) and any(_src(d) == "cache_computed_values" for d in m.decorator_list):
+                    selfname = m.args.args[0].arg
+                    reads_self = any(isinstance(n, ast.Name) and n.id == selfname for st_ in _body(m) for n in ast.walk(st_))
+                    if reads_self:
+                        refresh_ok = False
+                        where = "%s:%d" % (rel3, m.lineno)
     F["t_model_cache_refresh"] = refresh_ok
     L["t_model_cache_refresh"] = where
     return F, L
@@ -648,7 +671,7 @@ def derive(repo):
 
 ORDER = ["t_param_need", "t_model_notify", "t_upd_model_need", "t_upd_mesh_need", "t_upd_mesh_clear",
          "t_init_sub_model", "t_init_sub_mesh", "t_pf_sub_material", "t_rho_need", "t_ray_need",
-         "t_mesh_clear", "t_mesh_notify", "t_meshset_need", "t_meshset_clear", "t_meshset_sub", "t_meshset_initsols",
+         "t_mesh_clear", "t_mesh_notify", "t_meshset_need", "t_meshset_clear", "t_meshset_sub", "t_meshset_keeps_old", "t_meshset_initsols",
          "t_updmesh_need", "t_updmesh_clear", "t_bcinit", "t_dirichlet", "t_neumann", "t_lagrange",
          "t_getk_reset", "t_newton_need", "t_pf_need_d", "t_pf_need_u", "t_pf_setiter_d", "t_pf_setiter_u",
          "t_pf_dmg_inval_u", "t_pf_el_inval_d", "t_csr_key_groups", "t_csr_key_ndof", "t_mass_key_group",
